@@ -80,7 +80,8 @@ Definition bool_lexical (t : str) : bool := str_eqb t s_true || str_eqb t s_fals
 (* ------------------------------------------------------------------ Duration
    A timedelta is its total number of microseconds (Z).  Duration.encode:
      days < 0  <->  total < 0 (timedelta is normalised), microseconds := |total|,
-     hours = microseconds / 3600e6 (true division, then %02d truncates: see CodecFloat.v), microseconds %= 3600e6, ... *)
+     hours = microseconds / 3600e6 (true division, then %02d truncates: see CodecFloat.v), microseconds %= 3600e6, ...
+   This is the REPAIRED encoder (fixes/F71); [dur_encode_pinned] below is the pinned one. *)
 Definition dur_encode (us : Z) : str :=
   let a := Z.to_N (Z.abs us) in
   let hours := (a / 3600000000)%N in
@@ -88,8 +89,17 @@ Definition dur_encode (us : Z) : str :=
   let minutes := (a1 / 60000000)%N in
   let a2 := (a1 mod 60000000)%N in
   let seconds := (a2 / 1000000)%N in
+  let frac := (a2 mod 1000000)%N in                 (* fixes/F71: the sub-second part is kept as ".%06d" *)
   (if (us <? 0)%Z then [c_minus] else []) ++
-  c_P :: c_T :: print_N2 hours ++ c_H :: print_N2 minutes ++ c_M :: print_N2 seconds ++ [c_S].
+  c_P :: c_T :: print_N2 hours ++ c_H :: print_N2 minutes ++ c_M :: print_N2 seconds ++
+  (if (frac =? 0)%N then [] else c_dot :: print_fixed 6 frac) ++ [c_S].
+(* pinned Duration.encode: the fraction is dropped *)
+Definition dur_encode_pinned (us : Z) : str :=
+  let a := Z.to_N (Z.abs us) in
+  let a1 := (a mod 3600000000)%N in
+  let a2 := (a1 mod 60000000)%N in
+  (if (us <? 0)%Z then [c_minus] else []) ++
+  c_P :: c_T :: print_N2 (a / 3600000000) ++ c_H :: print_N2 (a1 / 60000000) ++ c_M :: print_N2 (a2 / 1000000) ++ [c_S].
 Definition dur_encode_s (s : Z) : str := dur_encode (s * 1000000).
 
 (* repaired Duration.decode (fixes/F23): fullmatch of
